@@ -242,4 +242,50 @@ theorem C23_forced_applies_at_effective_block (t : Tree) (p : Spec) (b : Nat) :
           · simp [Spec.enact, hp1.2.1]
           · simp [Spec.enact, hp1.2.2.1]
 
+/-- A forced change announced with delay 0 is enacted by the import of its own announcing block: the block's
+    announcement is registered first (`add_pending_change`, `HandleDigests`) and then found by the forced-change
+    application of the same import.  Hypotheses: the block is accepted, no forced change is pending on its
+    chain, no pending standard change is a dependency. -/
+theorem C23_forced_delay0_applies_at_own_block (t : Tree) (wf : t.WF) (p : Spec) (b : Nat) (f : Ann)
+    (hsig : signalled t b = some f) (hf : f.forced = true) (hd : f.delay = 0)
+    (hpar : (p.known.contains (par t b) && anc t p.fin (par t b)) = true)
+    (hno : p.forced.any (fun g => anc t g.blk b) = false)
+    (hdep : p.std.any (fun r => decide (eff t r.ann ≤ f.best) && anc t r.ann.blk f.blk) = false) :
+    (p.importBlock t b).2 = .ok ∧ (p.importBlock t b).1.setId = p.setId + 1 ∧
+    (p.importBlock t b).1.auths = p.auths ++ [f.tag] ∧ (p.importBlock t b).1.starts = p.starts ++ [f.best] ∧
+    (p.importBlock t b).1.forced = [] ∧ (p.importBlock t b).1.std = [] := by
+  have hb := signalled_blk t b f hsig
+  have hfind : (p.forced ++ [f]).find? (fun g => anc t g.blk b && decide (eff t g = num t b)) = some f := by
+    rw [List.find?_append]
+    have : p.forced.find? (fun g => anc t g.blk b && decide (eff t g = num t b)) = none := by
+      rw [List.find?_eq_none]
+      intro g hg
+      rw [List.any_eq_false] at hno
+      have := hno g hg
+      simp [this]
+    rw [this]
+    simp [List.find?, hb, anc_refl wf, eff, hd]
+  unfold Spec.importBlock
+  simp only [hpar, Bool.not_true, Bool.false_eq_true, if_false]
+  unfold Spec.addChange
+  simp only [hsig, hf, if_true, hno, Bool.false_eq_true, if_false]
+  unfold Spec.enactForced
+  simp only [hfind, hdep, Bool.false_eq_true, if_false, Spec.enact]
+  exact ⟨trivial, trivial, trivial, trivial, trivial, trivial⟩
+
+/-- the same on the model (the composition `handleBlock` performs: AddBlock, HandleDigests, ApplyForcedChanges):
+    block 2 announces a forced change with delay 0 and its own import enacts it; and a block that enacts a forced
+    change while announcing a scheduled change loses that announcement with the old set -/
+example :
+    let t : Tree := { parents := [0, 1], anns := [⟨2, true, 0, 7, 1⟩] }
+    (run t St.init [.imp 1, .imp 2]).setId = 1 ∧ lookup (run t St.init [.imp 1, .imp 2]).auths 1 = some 7 ∧
+    lookup (run t St.init [.imp 1, .imp 2]).change 1 = some 1 ∧ (run t St.init [.imp 1, .imp 2]).forced = [] := by
+  decide
+
+example :
+    let t : Tree := { parents := [0, 1, 2], anns := [⟨1, true, 1, 7, 0⟩, ⟨2, false, 1, 8, 0⟩] }
+    let s := run t St.init [.imp 1, .imp 2, .imp 3, .fin 3]
+    s.setId = 1 ∧ s.roots.length = 0 ∧ Scoped t St.init [.imp 1, .imp 2, .imp 3, .fin 3] := by
+  decide
+
 end Gossamer.C23
